@@ -689,3 +689,5 @@ impl<T, E> UnwrapOrDiverge<T> for Result<T, E> {
     #[verifier::external_body]
     fn unwrap_or_diverge(self) -> (v: T) ensures self == Ok::<T, E>(v) { unimplemented!() }
 }
+
+pub fn max_u64(a: u64, b: u64) -> (r: u64) ensures r == (if a >= b { a } else { b }), { if a >= b { a } else { b } }
